@@ -457,6 +457,17 @@ def rule_cwd(A: Analysis, rep):
             rep.unknown("CWD4", "origin of %s in %s" % (kind, fq.replace("conductor.", "")), c, "path `%s` could not be traced" % norm(target))
         else:
             rep.ok("CWD4", "rooted effect %s in %s" % (kind, fq.replace("conductor.", "")), c, "path class %s" % cls)
+    # CWD5: the COND file handed to the loader is an absolute path under the project root (relative include()s are
+    # resolved against its directory, so a relative COND path would make them depend on the working directory)
+    n5 = 0
+    for (f5, c5) in A.all_calls_to("TaskLoader.parse_cond_file"):
+        n5 += 1
+        a5 = c5.args[0] if c5.args else None
+        cls5 = path_class(A, f5, a5) if a5 is not None else "?"
+        rooted = cls5 in ("ROOT",) or (a5 is not None and ("self._project_root" in A.xtext(a5, f5) or "project_root" in A.xtext(a5, f5)))
+        rep.check(rooted, "CWD5", "COND file path handed to the loader is rooted (%s)" % f5.fq.rsplit(".", 1)[1], c5, "path class %s" % cls5,
+                  "parse_cond_file(%s): the path is not built from the project root — `include(\"x.cond\")` would be looked up relative to the current directory" % (norm(a5) if a5 is not None else "?"))
+    rep.check(n5 >= 2, "CWD5", "loader call sites found", None, "", "only %d parse_cond_file call site(s)" % n5, deep=False)
     # filesystem *queries* on a relative path are answered relative to the working directory as well
     QUERIES = ("exists", "is_dir", "is_file", "is_symlink", "iterdir", "stat", "lstat", "glob", "rglob", "read_text", "read_bytes")
     n_q = 0
